@@ -9,6 +9,7 @@ package main
 // A sweep of programs outside the fragment goes through node only.
 
 import (
+	"os"
 	"regexp"
 	"bytes"
 	"fmt"
@@ -764,6 +765,15 @@ func (g *c01Gen) expr(budget int) *c01E {
 	if r.Intn(40) == 0 {
 		return g.deMorganShape()
 	}
+	if r.Intn(60) == 0 {
+		// a conditional whose test is a parenthesised comma list that ends in a constant (isTruthy sees the whole test)
+		konst := []*c01E{{K: 'T'}, {K: 'F'}, {K: 'Z'}, c01N(0), c01N(1), c01Str(""), c01Str("s"), c01V("undefined"), c01U("!", c01N(0))}[r.Intn(9)]
+		head := c01L(c01V(r.Pick(c01Funs)), c01N(r.Intn(3)))
+		if r.Chance(30) {
+			head = c01B("=", c01V(r.Pick(c01Vars)), g.leaf())
+		}
+		return c01C(c01G(c01M(head, konst)), c01Wrap(g.expr(budget-2), int(pjs.OpAssign)), c01Wrap(g.leaf(), int(pjs.OpAssign)))
+	}
 	for try := 0; try < 20; try++ {
 		var f string
 		switch x := r.Intn(100); {
@@ -1242,8 +1252,14 @@ var c01ReYieldUndef = regexp.MustCompile(`\byield\s+\(*undefined\b`)
 // `undefined` as a parameter (last: `undefined){` / `undefined)=>`; not last: `(undefined,…){`) or as a declared variable
 var c01ReBindUndef = regexp.MustCompile(`\bundefined\s*\)\s*(\{|=>)|[(,]\s*undefined\s*[,=][^{};]*\)\s*(\{|=>)|\b(var|let|const)\s[^;]*\bundefined\s*[=,;]`)
 
+var c01ReStrictBlockFn = regexp.MustCompile(`[{;]\s*\{\s*(async\s+)?function\b|\)\s*\{\s*(async\s+)?function\b|\belse\s*\{\s*(async\s+)?function\b`)
+
 func c01ClassifyExtra(src string) []string {
 	var out []string
+	// S18: strict code with a function declaration directly in a block (the renamer treats it as function scoped)
+	if strings.Contains(src, "use strict") && c01ReStrictBlockFn.MatchString(src) {
+		out = append(out, "S18-strict-block-fn")
+	}
 	// S17: `yield undefined` where `undefined` may be a captured local of an enclosing function
 	if c01ReYieldUndef.MatchString(src) && c01ReBindUndef.MatchString(src) {
 		out = append(out, "S17-yield-shadow-undefined")
@@ -1336,6 +1352,8 @@ var c01FixedCorpus = []string{
 	"let x=2;if(a){throw 1}else{let x=3;h(x)}h(x)", "if(a)throw 1;else{let l=1}", "function t(){let x=2;if(a){return 1}else{let x=3;h(x)}h(x)}t()",
 	"a=null;x=(a?.b)[c];f(x)", "a=o1;x=(a==null?undefined:a.b)();f(x)", "a=null;x=(a==null?undefined:a.b).c;f(x)", "(a==null?undefined:a.b).c=1", "{class C{static s=f(1)}}", "{let z=class{static s=f(1)}}", "{class C extends f(1){}}",
 	"function t(){var {a}=o1;let z=1;var {n:[]}=o2}t()",
+	"f(typeof z);if(a)throw 1;else{function z(){}}", "f(typeof z);if(a){function z(){}}else throw 1",
+	"function t(undefined){function*u(){yield undefined}return[...u()]}f(t(1))", "function t(undefined){return function*(){yield undefined}}f([...t(1)()])",
 	"false%(10<(1000?!12000:a))", "x=a<(1?!5:b);f(x)", "x=a<<(0?b:!\"s\")+1;f(x)",
 	"x=a===null||a===undefined", "x=a==null?b:a", "x=a?true:false", "x=!a?b:c", "x=a?a:b", "x=(f(1),a)?a:g(2)",
 }
@@ -1458,6 +1476,9 @@ func init() {
 					}
 				}
 			}
+		}
+		if os.Getenv("VERIF_C01_ONLY") == "rules" { // debugging aid: only the rule-directed stage
+			return c01RulesStage(c)
 		}
 		// stage 1: exhaustive small expressions
 		var cases []*c01Case
